@@ -90,6 +90,7 @@ type Path struct {
 	pinMemoGen int
 	fnStack    []*ssa.Function
 	intMode    bool
+	knownHit   []*smt.Term // predicates of known-finding regions in which an assertion failed
 	chanSlack  int
 	exitCode   int
 	lazyGo     bool
@@ -490,6 +491,7 @@ func (p *Path) assert(c *smt.Term, label string) {
 			p.sess.PopCheck()
 			p.checkFull(smt.And(pred, smt.Not(c)))
 			krec := AssertRec{Label: label, Verdict: "sat", Known: id, Model: p.model()}
+			p.knownHit = append(p.knownHit, pred)
 			p.sess.PopCheck()
 			p.res.Asserts = append(p.res.Asserts, krec)
 			// outside the region the assertion is still checked
@@ -498,6 +500,7 @@ func (p *Path) assert(c *smt.Term, label string) {
 			p.sess.PopCheck()
 			if r == smt.Unknown {
 				c = smt.Or(pred, c)
+				p.knownHit = append(p.knownHit, pred)
 				p.res.Asserts = append(p.res.Asserts, AssertRec{Label: label, Verdict: "unknown", Known: id})
 			}
 		}
